@@ -186,7 +186,8 @@ def gen_cases(rng, tier, drift):
     for _ in range(n_e2e // 2):
         # persistent workers whose dataset state lives on in the worker; epochs abandoned while prefetched batches are in flight
         cases.append(dict(kind="e2e_p", seed=rng.randint(0, 10**9), W=rng.choice([1, 2, 2]), alias=rng.random() < 0.5, P=rng.choice([1, 2, 3]),
-                          takes=[rng.randint(0, 3), rng.randint(1, 4), None], n=rng.randint(6, 9)))
+                          takes=[rng.randint(0, 3), rng.randint(1, 4), None], n=rng.randint(6, 9),
+                          bad=sorted(rng.sample(range(1, 16), rng.choice([0, 0, 1, 2, 3])))))     # fetch counts (per replica) that fail after mutating the state
     for _ in range(n_e2e // 2):
         # persistent workers over an IterableDataset whose (iterator or dataset) state starts afresh every epoch: few items per
         # worker, so that a leaf returns, early in a new epoch, to the value it had when the previous (full or abandoned) epoch ended
@@ -366,6 +367,7 @@ def run_e2e_persistent(c):
     from torchdata.stateful_dataloader import StatefulDataLoader
     W, alias, n = c["W"], c["alias"], c["n"]
     NST = 40
+    bad = set(c.get("bad", []))
     hist = {w: history(dict(c, seed=c["seed"] + w, steps=NST)) for w in range(W)}
 
     class PDS(tud.Dataset):
@@ -383,6 +385,9 @@ def run_e2e_persistent(c):
             for o in steps[min(self.count, NST - 1)]:
                 self.live = apply_op(self.live, o)
             self.count += 1
+            if self.count in bad:
+                # the fetch fails AFTER it changed the state: nothing is reported for it, the next report must still carry the change
+                raise ValueError(f"fetch #{self.count} of worker {w} fails")
             return w * 1000 + self.count
 
         def state_dict(self):
@@ -403,7 +408,14 @@ def run_e2e_persistent(c):
     fails = []
     for e, take in enumerate(c["takes"]):
         k = 0
-        for b in dl:
+        it = iter(dl)
+        while True:
+            try:
+                b = next(it)
+            except StopIteration:
+                break
+            except ValueError:
+                continue            # a failing fetch: the consumer catches the error and carries on
             if take is not None and k >= take:
                 break
             k += 1
@@ -414,7 +426,7 @@ def run_e2e_persistent(c):
             if j < NST and got != exp[(w, j)]:
                 fails.append(f"epoch {e}, after batch {k} (worker {w}, its fetch #{j}): checkpoint holds {got}, the worker reported {exp[(w, j)]}")
     del dl
-    return dict(oracle="; ".join(fails[:2]) or None, nontrivial=True, key=["e2e_p", c["seed"], W, alias, c["P"], c["takes"]])
+    return dict(oracle="; ".join(fails[:2]) or None, nontrivial=True, key=["e2e_p", c["seed"], W, alias, c["P"], c["takes"], sorted(bad)])
 
 
 def run_e2e_persistent_iter(c):
